@@ -155,6 +155,24 @@ Proof.
     destruct (IH b eq_refl) as (rest & Hr). exists rest. cbn [app]. f_equal. exact Hr.
 Qed.
 
+(* the end of a comment is found at the same place whatever follows it *)
+Lemma comment_body_ext s body : comment_body s = Some body ->
+  forall rest, comment_body (body ++ 45 :: 45 :: 62 :: rest) = Some body.
+Proof.
+  revert body. induction s as [|x r IH]; intros body H rest; [discriminate|].
+  cbn [comment_body] in H. destruct r as [|y r2]; [discriminate|].
+  destruct ((x =? 45) && (y =? 45)) eqn:E.
+  - destruct r2 as [|z r3]; [discriminate|]. destruct (N.eqb_spec z 62) as [Ez|Ez]; [|discriminate].
+    inversion H; subst. reflexivity.
+  - destruct (comment_body (y :: r2)) as [b|] eqn:Eb; [|discriminate]. inversion H; subst.
+    specialize (IH b eq_refl rest).
+    destruct (comment_body_spec _ _ Eb) as (rest0 & Hr).
+    assert (Hhd : exists t', b ++ 45 :: 45 :: 62 :: rest = y :: t').
+    { destruct b as [|b0 b']; cbn [app] in *; inversion Hr; subst; eexists; reflexivity. }
+    destruct Hhd as (t' & Ht). cbn [app]. rewrite Ht in *. cbn [comment_body]. rewrite E.
+    cbn [comment_body] in IH. rewrite IH. reflexivity.
+Qed.
+
 Lemma comment_start_spec r : comment_start r = true ->
   exists r4, r = 33 :: 45 :: 45 :: r4 /\ r4 <> [].
 Proof.
@@ -169,7 +187,8 @@ Definition tok_form (ty : etype) (text : list N) : Prop :=
   | Plain => text <> [] /\ existsb special text = false
   | Entity => exists pre, text = 38 :: pre ++ [59] /\ ~ In 59 pre
   | Tag => exists pre, text = 60 :: pre ++ [62] /\ ~ In 62 pre
-  | Comment => exists body, text = 60 :: 33 :: 45 :: 45 :: body ++ [45; 45; 62] /\ existsb special body = false
+  | Comment => exists body, text = 60 :: 33 :: 45 :: 45 :: body ++ [45; 45; 62] /\ existsb special body = false /\
+                            forall rest, comment_body (body ++ 45 :: 45 :: 62 :: rest) = Some body
   | Invalid => text <> []
   | _ => False
   end.
@@ -192,7 +211,7 @@ Proof.
         { subst r4. cbn [app]. rewrite <- app_assoc. reflexivity. }
         split; [|destruct (existsb special body); discriminate].
         destruct (existsb special body) eqn:Es; cbn [tok_form]; [discriminate|].
-        exists body. split; [reflexivity|exact Es].
+        exists body. split; [reflexivity|]. split; [exact Es|]. exact (comment_body_ext _ _ Eb).
       + exists []. cbn [fst snd]. rewrite app_nil_r. split; [reflexivity|]. split; [discriminate|discriminate].
     - destruct (upto 62 r) as [a|] eqn:Eu.
       + destruct (upto_spec _ _ _ Eu) as (pre & rest & Ha & Hs & Hn). exists rest. cbn [fst snd].
